@@ -46,6 +46,7 @@ type Contract struct {
 	File     string
 	Line     int
 	NoPanicOnly bool
+	Helper      bool // private helper called while an object invariant is suspended: no type-invariant obligation at its returns
 }
 
 type Pred struct {
@@ -73,13 +74,14 @@ type SpecSet struct {
 	FieldInvs map[string]string // "pkg.Type.field" -> "nonnil"
 	TypeInvs  map[string]*Clause // "pkg.Type" -> invariant over `self` (pointer to the type)
 	Immutable map[string]bool    // "pkg.Type": never written outside its defining packages (checked by inventory)
+	Frozen    map[string]bool    // "pkg.Type": fields written only by the function that allocates the object (checked by inventory)
 	Errors    []string
 	Files     []string
 }
 
 var clauseKw = map[string]bool{"func": true, "method": true, "closure": true, "requires": true, "ensures": true, "modifies": true,
 	"loop": true, "pure": true, "props": true, "pred": true, "external": true, "iface": true, "functype": true, "ghost": true,
-	"trusted": true, "panics": true, "table": true, "fieldinv": true, "typeinv": true, "globalinv": true, "immutable": true, "assumes": true, "decreases": true, "assert": true, "fn": true, "nopanic": true}
+	"trusted": true, "helper": true, "panics": true, "table": true, "fieldinv": true, "typeinv": true, "globalinv": true, "immutable": true, "frozen": true, "assumes": true, "decreases": true, "assert": true, "fn": true, "nopanic": true}
 
 var reParamList = regexp.MustCompile(`^([^\s(]+|\([^)]*\)\.[^\s(]+)\s*(?:\(([^)]*)\))?\s*(?:\(([^)]*)\))?\s*$`)
 
@@ -98,7 +100,7 @@ func splitNames(s string) []string {
 }
 
 func loadSpecs(repo string, pkgDirs map[string]string) *SpecSet {
-	ss := &SpecSet{Contracts: map[string]*Contract{}, Preds: map[string]*Pred{}, FieldInvs: map[string]string{}, TypeInvs: map[string]*Clause{}, Immutable: map[string]bool{}}
+	ss := &SpecSet{Contracts: map[string]*Contract{}, Preds: map[string]*Pred{}, FieldInvs: map[string]string{}, TypeInvs: map[string]*Clause{}, Immutable: map[string]bool{}, Frozen: map[string]bool{}}
 	var names []string
 	for n := range pkgDirs {
 		names = append(names, n)
@@ -255,6 +257,10 @@ func (ss *SpecSet) parseFile(pkg, path, data string) {
 				continue
 			}
 			ss.TypeInvs[pkg+"."+f[0]] = &Clause{Kind: "typeinv", Src: src, Expr: e, File: path, Line: rc.line}
+		case "frozen":
+			for _, f := range strings.Fields(rc.text) {
+				ss.Frozen[pkg+"."+f] = true
+			}
 		case "immutable":
 			for _, f := range strings.Fields(rc.text) {
 				ss.Immutable[pkg+"."+f] = true
@@ -268,8 +274,8 @@ func (ss *SpecSet) parseFile(pkg, path, data string) {
 			ss.FieldInvs["global:"+pkg+"."+f[0]] = f[1]
 		case "fieldinv":
 			f := strings.Fields(rc.text)
-			if len(f) != 2 || f[1] != "nonnil" {
-				ss.errf(path, rc.line, "fieldinv <Type.field> nonnil")
+			if len(f) != 2 || (f[1] != "nonnil" && f[1] != "nullable") {
+				ss.errf(path, rc.line, "fieldinv <Type.field> nonnil|nullable")
 				continue
 			}
 			ss.FieldInvs[pkg+"."+f[0]] = f[1]
@@ -319,6 +325,8 @@ func (ss *SpecSet) parseFile(pkg, path, data string) {
 				cur.HasMod = true
 			case "trusted":
 				cur.Trusted = true
+			case "helper":
+				cur.Helper = true
 			case "nopanic":
 				cur.NoPanicOnly = true
 			case "props":
